@@ -25,5 +25,6 @@ META = {
 def check(run):
     common.mc_structs(run)
     common.gen_structs(run)
+    run.gen("Gen_MapBodies")
     run.replay_and_judge()
     return vlib.finish(run, "model_checking", RULE, ASSUME)
